@@ -408,6 +408,7 @@ def run(chk):
     vlib.tlc_mc("MC_Meta", "MC_Meta.cfg", workers=4, check=chk, must_take=VIEW_ACTIONS + PAGE_ACTIONS + DATA_ACTIONS + LIST_ACTIONS)
     vlib.tlc_mc("MC_Meta", "MC_Meta_store.cfg", workers=4, check=chk, must_take=LIST_ACTIONS + ["MCMaterialise", "MCSetTab", "MCSetZoom"])
     if not quick:
+        vlib.tlc_mc("MC_Meta", "MC_Meta_store3.cfg", workers=4, check=chk, must_take=LIST_ACTIONS + ["MCMaterialise", "MCSetTab", "MCSetZoom"])
         vlib.tlc_mc("MC_Meta", "MC_Meta_view.cfg", workers=4, check=chk, must_take=VIEW_ACTIONS + LIST_ACTIONS + ["MCMaterialise"])
         vlib.tlc_mc("MC_Meta", "MC_Meta_page.cfg", workers=4, check=chk, must_take=PAGE_ACTIONS + LIST_ACTIONS + ["MCMaterialise"])
         vlib.tlc_mc("MC_Meta", "MC_Meta_data.cfg", workers=4, check=chk, must_take=DATA_ACTIONS + LIST_ACTIONS + ["MCMaterialise"])
